@@ -54,7 +54,8 @@ CHECK_TEXT = {
         "note": "Trusted: pyarrow Table.slice/to_pylist/columns semantics (A-ARROW), Python semantics as encoded (DESIGN 2.5), z3/cvc5. "
         "That DuckDB's arrow table holds the statement's rows in result order is assumed; the bounded tier exercises it on the real stack (bounded, not proof).",
     },
-    "C01": _o("Deductive slice: connect sets the session time zone to UTC; fetchmany/fetchone/fetchall return the cells of the held arrow table unchanged, each row once. The value conversions (DuckDB, pyarrow) "
+    "C01": _o("Deductive slice: connect sets the session time zone to UTC; fetchmany/fetchone/fetchall return the cells of the held arrow table unchanged, each row once; the type-mapping rewrites store FLOAT as DOUBLE, "
+              "VARIANT/OBJECT/ARRAY as JSON and TIMESTAMP_NTZ as TIMESTAMP and leave every other type alone. The value conversions (DuckDB, pyarrow) "
               "are outside any contract on fakesnow code: bounded round trips over every supported column type x boundary values x write path decide them. Known finding (NUMBER(p,0) wider than 18 digits read back as Decimal) printed.",
               "Not proof for the property as a whole: conversions by DuckDB/pyarrow are exercised on the stated bound only. Trusted: A-DUCK, A-ARROW."),
     "C02": _o("Deductive slice: checks.equal is Snowflake identifier equality for all identifier pairs; upper_case_unquoted_identifiers turns exactly the unquoted identifiers into upper-case copies and leaves every other node untouched, "
@@ -66,10 +67,12 @@ CHECK_TEXT = {
               "for the statement's own table on the cursor's connection; Snowflake type names/precision/scale come from the proved rowtype table. Bounded: DDL histories against a reference catalog over all metadata surfaces. "
               "Known findings (4) printed.",
               "Not proof for the property as a whole: the information_schema / SHOW SQL is DuckDB's. Trusted: A-DUCK, A-SQLGLOT, A-WF, A-PURE."),
-    "C10": _o("Deductive slice: every statement goes through the whole transform pipeline in the fixed order and a database created by a statement gets the macros the rewrites rely on. "
+    "C10": _o("Deductive slice: every statement goes through the whole transform pipeline in the fixed order and a database created by a statement gets the macros the rewrites rely on; "
+              "VALUES columns are named COLUMN1..n; DATEADD of a day-or-larger part to a DATE is cast back to DATE; REGEXP_REPLACE long forms are rejected, short ones made global; TO_NUMBER's optional arguments are told apart as documented. "
               "Bounded: each function of the property x argument lists x syntactic contexts against Snowflake's documented results. Known findings (3) printed.",
               "Not proof for the property as a whole: value/type semantics of each rewrite are DuckDB's on the rewritten SQL; node-level rewrite functions are not under contract (A-TX)."),
-    "C11": _o("Deductive slice: the order-sensitive JSON rewrites are applied in the order their correctness depends on, for every statement. Bounded: JSON documents x paths x casts x contexts against navigating the same "
+    "C11": _o("Deductive slice: the order-sensitive JSON rewrites are applied in the order their correctness depends on, for every statement; v['k'] / v[n] become the extraction of $.k / $[n]; every path extraction is parenthesised whatever its parent; "
+              "FLATTEN VALUE::varchar is the raw text wherever the flatten sits in the SELECT; VARIANT/OBJECT/ARRAY types are JSON. Bounded: JSON documents x paths x casts x contexts against navigating the same "
               "document in Python. Known findings (6) printed.",
               "Not proof for the property as a whole: JSON semantics are DuckDB's json extension; node-level rewrites not under contract (A-TX)."),
     "C12": _o("Deductive slice: merge() produces candidates + one mutation per WHEN clause in clause order + counts, parses each generated statement once, passes non-MERGE statements through and fails only for a MERGE; "
